@@ -145,7 +145,9 @@ ModeOutcome(mode, existing, named) ==
                     [] mode = "overwrite" -> TRUE
                     [] mode = "read" -> existing \in {"complete", "flagged"},     \* "flagged" opens with the warning
       intact  |-> (mode # "overwrite"),           \* the pre-existing file keeps its content, whatever it is
-      removable |-> (mode = "overwrite" \/ (mode = "write" /\ ~named)) ]
+      removable |-> (mode = "overwrite" \/ (mode = "write" /\ ~named)),
+      \* a refused remove() is refused as a whole: the object stays open and usable, the file's flag stays as it was
+      refusalKeeps |-> TRUE ]
 ModeTable == { [mode |-> mo, existing |-> ex, named |-> nm, out |-> ModeOutcome(mo, ex, nm)] :
                  mo \in {"write", "overwrite", "read"}, ex \in ExistingKinds, nm \in BOOLEAN }
 SetToSeq(S) == LET RECURSIVE F(_) F(T) == IF T = {} THEN << >> ELSE
